@@ -105,7 +105,7 @@ def make_schema(fam, tg, rng):
     if kw_only:
         d["dc_args"] = {"kw_only": True}
     tg._fix_defaults(d)
-    if rng.random() < 0.3:
+    if rng.random() < 0.45:
         # a parent declares a prefix of the fields differently; the class re-declares them with a PLAIN default
         # (no field()): nullable-with-None in the parent -> not nullable here; required in the parent -> defaulted here
         m = rng.randint(1, len(fields))
@@ -124,6 +124,7 @@ def make_schema(fam, tg, rng):
                 redeclared.append(f)         # keeps its alias metadata: declared here, not in the parent
             pfields.append(pf)
         if any(f.get("alias") is None for f in redeclared):
+            tg.redeclared_count = getattr(tg, "redeclared_count", 0) + 1
             pname = tg.fresh("P")
             pd = {"k": "dc", "name": pname, "bases": [], "mixin": mixin, "fields": pfields}
             if kw_only:
@@ -145,13 +146,16 @@ def run_case(seed, tier, rec, st):
             return
         tg = TypeGen(fam, rng, dc_config_fn=lambda r: common.safe_config(r))
         sname = make_schema(fam, tg, rng)
+        if getattr(tg, "redeclared_count", 0):
+            rec.count("schemas_with_parent_child_redeclaration")
         S = fam.get(sname)
         df = fam.defs[sname]
         ref = Ref(fam)
         t = ("dc", sname)
-        mixin = bool(df.get("mixin"))
+        mixin = hasattr(S, "from_dict")          # (declared on the class or inherited from a parent)
         enc = BasicEncoder(S)
-        dec = S.from_dict if mixin else BasicDecoder(S).decode
+        cdec = BasicDecoder(S).decode
+        decs = [S.from_dict, cdec] if mixin else [cdec]
         vg = Gen(fam, rng)
         opts = ref.dc_opts(sname, Ctx())
         forbid = opts["forbid_extra"]
@@ -159,6 +163,7 @@ def run_case(seed, tier, rec, st):
         njunk = 8 if tier == "quick" else len(pool)
         raise_mon = st.get("raise")
         for j in range(2):
+            dec = decs[j % len(decs)]           # the class's own compiled method, then the codec built for it
             v = vg.instance(sname, 3)
             try:
                 d0 = enc.encode(v)
@@ -177,6 +182,10 @@ def run_case(seed, tier, rec, st):
                 d2 = dict(d0)
                 del d2[k]
                 faults.append((f"drop:{k}", d2, None))
+                # an explicit null for every member (the junk value most often special-cased by generated code)
+                d2 = dict(d0)
+                d2[k] = None
+                faults.append((f"null:{k}", d2, None))
             # nested positions
             ps = [p for p in paths(d0) if len(p) >= 2]
             for p in rng.sample(ps, min(len(ps), 6 if tier == "quick" else 20)):
